@@ -1309,12 +1309,29 @@ fn exec_op(op: &Value, ctx: &mut Ctx) {
         "slablen" => {
             let aid = get_i(op, "aid");
             if let (Ctx::S(s), Some(a)) = (&mut *ctx, get_actor(aid)) {
-                let r = a.query(s, |n, _| n.slab.slab.len());
+                // len(), is_empty() and iteration must agree; zombies = children that have terminated
+                // but whose deferred removal has not run yet
+                let r = a.query(s, |n, _| {
+                    let sl = &n.slab.slab;
+                    let mut it = 0usize;
+                    let mut z = 0usize;
+                    for own in sl {
+                        it += 1;
+                        if own.is_zombie() {
+                            z += 1;
+                        }
+                    }
+                    (sl.len(), it, sl.is_empty(), z)
+                });
+                let (len, it, empty, z) = r.unwrap_or((0, 0, true, 0));
                 ev(format!(
-                    r#"{{"e":"slablen","aid":{},"ready":{},"len":{}}}"#,
+                    r#"{{"e":"slablen","aid":{},"ready":{},"len":{},"iter":{},"empty":{},"zombies":{}}}"#,
                     aid,
                     r.is_some(),
-                    r.unwrap_or(0)
+                    len,
+                    it,
+                    empty,
+                    z
                 ));
             }
         }
